@@ -45,7 +45,7 @@ LEVEL_NOTE = (
     "Only literal message ids / contexts / plural forms are in scope (a data-supplied context cannot be extracted); the "
     "reported line must lie within the originating markup (first to last line of the tag or output statement)."
 )
-TECHNIQUE = "bounded-exhaustive enumeration of translation sites x placements x layouts relating recorded catalog lookups to extracted messages"
+TECHNIQUE = "bounded-exhaustive enumeration of translation sites x placements x layouts relating recorded catalog lookups to extracted messages, three renders per parsed template"
 ASSUMPTIONS = ["the Translations double implements the documented gettext / ngettext / pgettext / npgettext protocol"]
 
 
